@@ -415,7 +415,7 @@ def hx(s):
     return s.encode().hex()
 
 
-def gen_seq(rng, dname, nops, nkeys=3, paths=None, dump=True, short_ttl=True, locks=True, evict_members=0, pad=None):
+def gen_seq(rng, dname, nops, nkeys=3, paths=None, dump=True, short_ttl=True, locks=True, evict_members=0, pad=None, past=0.0):
     """random sequence of mutating operations and reads on a few keys of one DMap, every client path"""
     paths = paths or ALLPATHS
     keys = [hx("%s-k%d" % (dname, i)) for i in range(nkeys)]
@@ -445,6 +445,12 @@ def gen_seq(rng, dname, nops, nkeys=3, paths=None, dump=True, short_ttl=True, lo
                 op["exat"], op["rel"] = 60000, True
             elif y < 0.46:
                 op["pxat"], op["rel"] = ttl, True
+            if past and rng.random() < past:
+                # an absolute expiry that has already passed when the write is made: acknowledged, the key reads as absent
+                # afterwards, and every copy - not only the owner's - has to carry the write (seeded/C04-g)
+                for f in ("ex", "px", "exat", "pxat"):
+                    op.pop(f, None)
+                op[rng.choice(["pxat", "exat"])], op["rel"] = -rng.choice([3000, 5000]), True
             ops.append(op)
         elif w < 0.40:
             ops.append({"op": "get", "c": c, "d": dname, "k": k})
